@@ -334,6 +334,34 @@ def lowered_names(events):
     return out
 
 
+def deps_vs_refs(events, t):
+    """TableDepsCollector against what lowering does: for every relation variable (and main) the set of declared tables its lowering
+    instantiates (`instance` events of a table id that an `extern` / `table` event declared, between the previous declaration and
+    its own `table` event) must be the set of dependencies toposort_tables was given for it.  -> list of (ident, deps, refs) that differ"""
+    order = [tuple(x) for x in t["order"]]
+    deps = dict((tuple(k), set(tuple(x) for x in ds)) for k, ds in t["dependencies"])
+    declared = {}       # tid -> ident
+    k = 0
+    refs = set()
+    bad = []
+    for e in events:
+        op, d = e.get("op"), e.get("d") or {}
+        if op == "instance" and d["tid"] in declared:
+            refs.add(declared[d["tid"]])
+        elif op in ("extern", "table"):
+            if k >= len(order):
+                return [("more tables lowered than toposort_tables returned", [], [])]
+            ident = order[k]
+            k += 1
+            declared[d["tid"]] = ident
+            if op == "table":
+                want = set(x for x in deps.get(ident, set()) if x in deps)      # unknown names are dropped by toposort.rs
+                if want != refs:
+                    bad.append((list(ident), sorted(map(list, want)), sorted(map(list, refs))))
+            refs = set()
+    return bad
+
+
 def toposort_case(t):
     """hook `toposort_tables` (hooks/toposort-tables.diff) {dependencies: [(ident, [ident])], main, order} ->
     (coq expression `toposort dag fuel start`, expected order as indices, names in order).
